@@ -981,7 +981,11 @@ fn run_map_case(ctx: &mut Ctx, kind: Kind, cap: u8, nkeys: u8, ops: &[MapOp]) {
         }
         Kind::Conc(strat, shards) => {
             let shards = shards as usize;
-            let cfg = ConcurrentLruMapConfig { base_config: lru_config(0, cap), shard_count: shards, load_balancing: strategy_of(strat) };
+            // the per-shard configuration preset (statistics on/off, ...) is part of the configuration
+            // space: chosen from the case's sizes, so every strategy meets every preset
+            let base = ((cap + nkeys) % 4) as u8;
+            ctx.label(format!("conc_base_preset={base}"));
+            let cfg = ConcurrentLruMapConfig { base_config: lru_config(base, cap), shard_count: shards, load_balancing: strategy_of(strat) };
             let built = ctx.no_panic("new", || ConcurrentLruMap::<u32, u64, Rec>::with_config_and_callback(cfg, rec.clone()));
             let Some(built) = built else { return };
             let map = match built {
@@ -1064,7 +1068,9 @@ fn run_mt_case(ctx: &mut Ctx, shards: u8, strat: u8, cap: u8, npriv: u8, nshared
         return;
     }
     let rec = Rec::new();
-    let cfg = ConcurrentLruMapConfig { base_config: lru_config(0, cap), shard_count: shards, load_balancing: strategy_of(strat) };
+    let base = ((cap + npriv) % 4) as u8;
+    ctx.label(format!("conc_base_preset={base}"));
+    let cfg = ConcurrentLruMapConfig { base_config: lru_config(base, cap), shard_count: shards, load_balancing: strategy_of(strat) };
     let built = ctx.no_panic("new", || ConcurrentLruMap::<u32, u64, Rec>::with_config_and_callback(cfg, rec.clone()));
     let Some(Ok(map)) = built else {
         ctx.fail("new", "err", "", "ConcurrentLruMap::with_config_and_callback refused a valid configuration");
